@@ -19,6 +19,7 @@ import (
 	"encoding/base64"
 	"encoding/hex"
 	"encoding/json"
+	"flag"
 	"fmt"
 	"math/big"
 	"math/rand"
@@ -585,8 +586,33 @@ func impl(ops []string) []string {
 			}
 		}()
 	}
-	side.Store(hashOps(ops), observations)
+	// A line carries the queue the contract recorded when the case was GENERATED. In a sub-sequence tried by the
+	// shrinker the same call may behave differently, so the line is stale and a model/implementation difference on it
+	// means nothing: such a candidate answers with the model's own output (no difference, no oracle verdict), which
+	// makes the shrinker discard it. Generated and fixed cases themselves are never masked.
+	h := hashOps(ops)
+	if _, ok := genuine.Load(h); !ok {
+		for i, op := range ops {
+			if pl, ok := parseTxn(op); ok && pl.typ == "sc" && observations[i].kind == "txn" && observations[i].recorded != pl.res {
+				if mo, err := corr.RunModel(zdrvDir(), "C04", ops); err == nil {
+					side.Delete(h)
+					return mo
+				}
+				break
+			}
+		}
+	}
+	side.Store(h, observations)
 	return outs
+}
+
+var genuine sync.Map // hashOps of the generated and fixed cases
+
+func zdrvDir() string {
+	if f := flag.Lookup("zdrv"); f != nil {
+		return f.Value.String()
+	}
+	return "/verif/lean/.lake/build/bin"
 }
 
 // ---------------------------------------------------------------------------------------------- oracle
@@ -750,7 +776,7 @@ func main() {
 			if th {
 				return 400
 			}
-			return 80
+			return 60
 		},
 		Fixed: fixedCases(),
 		Nontrivial: func(ops, outs []string) bool {
